@@ -453,15 +453,18 @@ Section OverlayStrict.
     intros ex _. destruct ex; [apply strictP_ret; exact Hl|exact IH].
   Qed.
 
+  Lemma st_lower : Forall (fun l => Lok (fst l)) lower.
+  Proof. now inversion Hall. Qed.
+
   Lemma st_read_path p : strictP P_lp (read_path top lower p).
   Proof.
     unfold read_path. destruct p as [|x p']; [apply strictP_ret; exact st_top|]. set (p := x :: p').
     eapply strictP_try_P with (P0 := fun _ => True); [apply strict_strictP, (st_exists (fst top) st_top)| |intros; exact I|exact I].
-    intros wo _. destruct wo; [apply strictP_ret; exact I|].
-    eapply strictP_try_P; [apply st_first_layer, Hall| |intros; exact I|exact I].
-    intros [lp|] Hl; [apply strictP_ret; exact Hl|].
+    intros up _. destruct up; [apply strictP_ret; exact st_top|].
     eapply strictP_try_P with (P0 := fun _ => True); [apply strict_strictP, (st_exists (fst top) st_top)| |intros; exact I|exact I].
-    intros ex _. destruct ex; apply strictP_ret; [exact st_top|exact I].
+    intros wo _. destruct wo; [apply strictP_ret; exact I|].
+    eapply strictP_try_P; [apply st_first_layer, st_lower| |intros; exact I|exact I].
+    intros [lp|] Hl; apply strictP_ret; [exact Hl|exact I].
   Qed.
 
   Lemma st_with_read_path {T} p (f : vfs * path -> bprog (res T)) :
@@ -470,7 +473,7 @@ Section OverlayStrict.
 
   Lemma st_ovl_exists p : strict (ovl_exists top lower p).
   Proof.
-    unfold ovl_exists. st_step; [exact (st_exists (fst top) st_top _)|]. st_step; [apply strict_ret|].
+    unfold ovl_exists.
     eapply strict_let_P; [apply st_read_path| |].
     - intros [lp|e|] Hl; [exact (st_exists (fst lp) Hl _)| |apply strict_ret].
       destruct (e_kind e); apply strict_ret.
